@@ -377,3 +377,118 @@ def c04_deps(spec, obs, sc=0):
             elif rec["start"][sc] - bound < timedelta(seconds=obs["gran"]):
                 tight += 1
     return v, tight, checked
+
+
+# ---- C08 -------------------------------------------------------------------------------------
+
+def c08_idle(spec, obs, sc=0, cal=None):
+    """No eligible working time left idle, slot-granular (see DESIGN C08). Only tasks on unlimited
+    resources are judged; a slot counts as idle if it is working for every allocated resource for its
+    whole length and carries zero booked seconds (of any task) in the final ledger."""
+    v = []
+    cal = cal or RefCalendar(spec)
+    deps = RefDeps(spec)
+    rs, full2short = res_specs(spec)
+    short2full = {s: f for f, s in full2short.items()}
+    tix = task_index(obs)
+    L = obs["gran"]
+    led = obs["ledger"].get(sc, {})
+    ebt = entries_by_task(obs, sc)
+    spans = 0
+
+    def limited(rid):
+        r, full, par = rs[rid]
+        if r.get("limits"):
+            return True
+        while par:
+            pshort = full2short[par]
+            if rs[pshort][0].get("limits"):
+                return True
+            par = rs[pshort][2]
+        return False
+
+    def slot_free(rids, s):
+        for rid in rids:
+            if not cal.whole_slot_working(rid, s):
+                return False
+            lst = led.get(short2full[rid], {}).get(s, [])
+            if sum(q for _t, q in lst) > EPS:
+                return False
+            if obs["used"].get(sc, {}).get(short2full[rid], {}).get(s, 0.0) > EPS:
+                return False  # marked (e.g. dependency offset): not claimable idle time
+        return True
+
+    def sidx(t):
+        return int((t - obs["pstart"]).total_seconds() // L)
+
+    for fid in deps.leaves():
+        t = deps.node[fid]
+        rec = tix.get(fid)
+        if rec is None or not rec["sched"][sc] or not t.get("effort") or t.get("milestone"):
+            continue
+        alloc = t.get("alloc") or []
+        if not alloc or t.get("alt") or any(limited(r) for r in alloc):
+            continue
+        if t.get("limits") or any(deps.node[a].get("limits") for a in deps.ancestors(fid)):
+            continue
+        mine = ebt.get(fid, {})
+        if not mine:
+            continue
+        fwd = rec["forward"][sc] is not False
+        slots = sorted({s for r in mine.values() for s in r})
+        if fwd:
+            bound = obs["pstart"]
+            pin = t.get("start") or next((deps.node[a].get("start") for a in deps.ancestors(fid) if deps.node[a].get("start")), None)
+            if pin:
+                bound = max(bound, parse_date(pin))
+            ok = True
+            if not t.get("start"):
+                for p, k, g in deps.edges(fid):
+                    pr = tix.get(p)
+                    if not pr or not pr["sched"][sc]:
+                        ok = False
+                        break
+                    at = pr["start"][sc] if k == "start" else pr["end"][sc]
+                    bound = max(bound, at + timedelta(seconds=g))
+            if not ok:
+                continue
+            b = sidx(bound)
+            first = b if slot_start(obs, b) == bound else b + 1
+            last = slots[-1]
+            if last - first >= 2:
+                spans += 1
+            for s in range(first, last):
+                if s in slots:
+                    continue
+                if slot_free(alloc, s):
+                    v.append(("idle-asap", f"{fid} (bound {bound}, last work in slot {slot_start(obs, last)}) left slot "
+                                           f"{slot_start(obs, s)} of {alloc} working and unbooked"))
+                    break
+        else:
+            deadline = obs["pend"]
+            own_end = t.get("end") or next((deps.node[a].get("end") for a in deps.ancestors(fid) if deps.node[a].get("end")), None)
+            if own_end:
+                deadline = min(deadline, parse_date(own_end))
+            else:
+                # successors: tasks having an on-end edge to fid
+                for other in deps.leaves():
+                    for p, k, g in deps.edges(other):
+                        if k == "end" and fid in deps.leaves_below(p):
+                            orc = tix.get(other)
+                            if orc and orc["sched"][sc] and orc["start"][sc] is not None:
+                                deadline = min(deadline, orc["start"][sc] - timedelta(seconds=g))
+            en = rec["end"][sc]
+            if en > deadline:
+                v.append(("alap-late", f"{fid} ends {en} after its deadline {deadline}"))
+                continue
+            first = slots[-1] + 1
+            d = sidx(deadline)
+            lastx = d  # exclusive
+            if lastx - first >= 2:
+                spans += 1
+            for s in range(first, lastx):
+                if slot_free(alloc, s):
+                    v.append(("idle-alap", f"{fid} (deadline {deadline}, ends {en}) left slot {slot_start(obs, s)} of {alloc} "
+                                           f"working and unbooked between its end and the deadline"))
+                    break
+    return v, spans
